@@ -42,6 +42,8 @@ type C15Req struct {
 	HeadCL   int         `json:"headcl,omitempty"`  // HEAD / 304 in cl mode: the Content-Length announced for the body that is not sent
 	// CloseBody: the handler calls r.Body.Close() when it is done with the request (the usual defer)
 	CloseBody bool `json:"closebody,omitempty"`
+	// Trailer (chunked responses): the handler announces the trailer field X-Sum and sets it after writing the body
+	Trailer bool `json:"trailer,omitempty"`
 }
 
 type C15Case struct {
@@ -87,6 +89,7 @@ func genC15Req(t *rapid.T) C15Req {
 	}
 	r.Status = rapid.SampledFrom(c15Statuses).Draw(t, "status")
 	r.TECase = r.Mode == "chunked" && rapid.IntRange(0, 3).Draw(t, "tecase") == 0
+	r.Trailer = r.Mode == "chunked" && rapid.IntRange(0, 3).Draw(t, "trailer") == 0
 	for i := rapid.IntRange(0, 2).Draw(t, "nrh"); i > 0; i-- {
 		r.RespHdrs = append(r.RespHdrs, [2]string{rapid.SampledFrom([]string{"X-Resp", "Content-Type", "X-Multi", "X-Multi"}).Draw(t, "rhn"), rapid.SampledFrom([]string{"a", "text/plain", "b c", "100%", "/f%20g?x=%2F"}).Draw(t, "rhv")})
 	}
@@ -103,6 +106,9 @@ func genC15Req(t *rapid.T) C15Req {
 	if bodiless && len(r.Writes) == 0 && r.Mode == "cl" && r.Status != 204 {
 		// a HEAD or 304 response announces the length of the representation it does not carry
 		r.HeadCL = rapid.SampledFrom([]int{0, 0, 5, 1234}).Draw(t, "headcl")
+	}
+	if r.Mode != "chunked" || bodiless {
+		r.Trailer = false
 	}
 	for i := 0; i <= len(r.Writes); i++ {
 		if rapid.IntRange(0, 4).Draw(t, "flush") == 0 {
@@ -262,6 +268,9 @@ func runC15(c C15Case) (out core.Outcome) {
 			} else {
 				w.Header().Set("Transfer-Encoding", "chunked")
 			}
+			if q.Trailer {
+				w.Header().Set("Trailer", "X-Sum")
+			}
 		}
 		flushAt := map[int]bool{}
 		for _, f := range q.FlushAt {
@@ -280,6 +289,9 @@ func runC15(c C15Case) (out core.Outcome) {
 			if flushAt[k+1] {
 				w.(http.Flusher).Flush()
 			}
+		}
+		if q.Trailer {
+			w.Header().Set("X-Sum", fmt.Sprintf("sum-%d-%d", i, off))
 		}
 	})
 	var exs []error
@@ -502,6 +514,17 @@ func runC15(c C15Case) (out core.Outcome) {
 		if resp.ProtoMajor != 1 || resp.ProtoMinor != q.Minor {
 			out.Violation = core.Viol("C15/response-version", "response %d: %s for an HTTP/1.%d request", i, resp.Proto, q.Minor)
 			return
+		}
+		if q.Trailer {
+			total := 0
+			for _, n := range q.Writes {
+				total += n
+			}
+			if got, want := resp.Trailer.Get("X-Sum"), fmt.Sprintf("sum-%d-%d", i, total); got != want {
+				out.Violation = core.Viol("C15/response-trailer", "response %d: trailer X-Sum read back as %q, the handler set %q", i, got, want)
+				return
+			}
+			cls.Add("resp:chunked-with-trailer")
 		}
 		if !bytes.Equal(body, wantBody) {
 			out.Violation = core.Viol("C15/response-body", "response %d (%s): body has %d bytes, handler wrote %d (first difference at %d)", i, q.Mode, len(body), len(wantBody), firstDiff(body, wantBody))
